@@ -32,7 +32,11 @@ func runC12(run *Run, replay string) {
 		scs12 := genScenarios(r, opts)
 		if bi%3 == 0 {
 			// fixed-value constraints against matching and non-matching written values (own random stream)
-			scs12 = append(scs12, literalValueFocusScenario(rand.New(rand.NewSource(subSeed(run.Res.Seed, 777000+bi)))))
+			lf := literalValueFocusScenario(rand.New(rand.NewSource(subSeed(run.Res.Seed, 777000+bi))))
+			for off := 0; off <= len(lf.Src); off++ {
+				lf.Offsets = append(lf.Offsets, off)
+			}
+			scs12 = append(scs12, lf)
 		}
 		for si, sc := range scs12 {
 			sc.W.Collect()
@@ -46,7 +50,7 @@ func runC12(run *Run, replay string) {
 			pairs := List{}
 			loc := map[string]interface{}{"seed": run.Res.Seed, "base": bi, "scenario": si, "kind": sc.Kind, "src": string(sc.Src)}
 			garbage := parserRangesMalformed(sc)
-			for _, off := range cursorOffsets(r, sc.Src, run.Thorough, posN) {
+			for _, off := range append(cursorOffsets(r, sc.Src, run.Thorough, posN), sc.Offsets...) {
 				pos, ok := tbl[off]
 				if !ok {
 					continue
@@ -84,6 +88,7 @@ func runC12(run *Run, replay string) {
 			}
 			if len(pairs) > 0 {
 				run.Case("hovers", []S{bodyS(body), sc.schemaS(), pairs, Str(string(sc.Src))}, T("allok"))
+				hoverValueCase(run, sc, body, pairs)
 			}
 			if len(run.Res.Samples) < 2 && len(pairs) > 5 {
 				run.Sample(map[string]interface{}{"src": string(sc.Src), "positions": len(pairs)})
